@@ -107,6 +107,14 @@ P.update({
             'Buckshot/samplepts inside the ranges; gridpts = full Cartesian product; randomly_bin: product N, length ndim.', 'DESIGN.md#c09',
             'NOT CLAIMED: whole lattice/buckshot/sparsity solves, member configuration transfer, fillpts (unbounded loops over symbolic state).'),
 })
+P.update({
+    'C11': (True, 'model_checking',
+            'collapse_at / collapse_as / collapse_weight are run on real Monitors holding a solver-quantified history with a symbolic tolerance: an index / pair / weight '
+            'is reported iff its documented test holds over the window and it is not masked (every accepted mask format), and the detector\'s own output as mask yields '
+            'nothing; staged collapses through termination -> collapsed() -> update_mask keep and grow the mask; in real NM / DE / DE2 solvers a fired CollapseAt / '
+            'CollapseAs followed by Collapse() makes every later evaluated point satisfy the relation exactly, also after a second collapse, and is not reported again.',
+            'DESIGN.md#c11', 'collapse_cost and termination of the whole collapse loop beyond the unrolled steps are outside the claim.'),
+})
 
 NOT_YET = 'check not built yet in this round (planned: DESIGN.md section 4)'
 
